@@ -44,6 +44,15 @@ CHECKS = {
               "exactly; every table row and every predicted basis image is then replayed into the real functions in a float64 and a "
               "float32 session. By linearity the basis images fix fft/ifft/get_fourier_coefficients for every state on those grids."),
         note="TLC/SANY, the dump parser, numpy evaluation of cos on the grid; tolerance 1e-10 (x64) / 3e-5 (f32) relative to N^D*a"),
+    "C05": dict(
+        category="model_checking", design_ref="4/C05", engine="linear",
+        technique="TLC symbol table of d^m/dx_d^m for every stored index (Symbols.DerivativeTerms, MC_Linear.DerivativeOK/ParityOK) replayed into ex.derivative, the operator builders and Poisson",
+        text=("MC_Linear carries, for every stored index of every (D,N), the exact symbol (i w k_d)^m of every pure derivative up to order 6; TLC checks "
+              "composition, parity structure and that the Poisson symbol inverts the Laplacian of order 2 and 4 on every non-constant mode. The table is "
+              "replayed into build_derivative_operator, build_laplace_operator (orders 0-6), build_gradient_inner_product_operator (orders 1-5, "
+              "per-axis velocities), ex.derivative (orders 1-6, C in 1..3, output layout, random Nyquist-free trigonometric polynomials and single modes "
+              "against closed forms) and Poisson (orders 2 and 4: zero-mean result, operator(u) = -(f - mean f)) for several domain extents."),
+        note="TLC, fft conventions (C04), numpy cos for closed forms; tolerance 1e-10 relative"),
     "C08": dict(
         category="model_checking", design_ref="4/C08", engine="nonlin",
         technique="TLC invariants ShiftOK/PermOK/VortSwapOK/EmbedOK on the exact sparse-spectrum machine (MC_Nonlin) + metamorphic replay of TLC-enumerated group elements on every public stepper",
@@ -72,6 +81,16 @@ CHECKS = {
               "compared with each other and with these laws on random Nyquist-free fields (D=2,3, N odd/even, several L); 5-step rollouts of "
               "NavierStokesVelocity/KolmogorovFlowVelocity from solenoidal states for orders 1-4 log the spectral divergence per step, validated by TLC."),
         note="TLC, the library's derivative operator as measuring instrument for the divergence (C04/C05), Trace_Monitor bound 5e4 ulps"),
+    "C11": dict(
+        category="model_checking", design_ref="4/C11", engine="linear",
+        technique="TLC sign/parity invariants of the symbol tables (MC_Linear: ReversibleOK, DissipativeOK, DiffusionPSD, ParityOK) + replay of moduli and norm ratios + TLC-validated monitored rollouts",
+        text=("TLC checks on every stored index (Nyquist lines included) that advection/dispersion symbols are purely imaginary, diffusion/hyper-diffusion "
+              "symbols real and non-positive (strictly negative off the mean for hyper-diffusion; PSD instances for full-matrix diffusion), and that "
+              "odd/even generic terms are purely imaginary/real. Replay: |step_fourier(ones)| <= 1 at every index for scalar/vector/SPD-matrix "
+              "coefficients, L over decades and dt up to 1e6; ||stepper(u)|| <= ||u|| on white-noise, Nyquist-only (last and leading axis) and "
+              "Nyquist-free states with equality for the non-dissipative classes on odd grids / Nyquist-free states; generic/normalized/difficulty linear "
+              "steppers on fine grids; wave energy before/after; rollouts with the per-step norm ratio validated by TLC (Trace_Monitor)."),
+        note="TLC, numpy norms; tolerance 1e-12 on moduli/ratios (1e-9 for the generic family at dt = 1e6)"),
     "C14": dict(
         category="model_checking", design_ref="4/C14", engine="rollout",
         technique="TLC state machine of rollout/repeat/windows (MC_Rollout) + replay of every terminal state + TLC trace validation (Trace_Rollout) of recorded executions",
@@ -135,7 +154,7 @@ def main():
         "engines": [
             {"name": "layout", "path": "spec/MC_Layout.tla spec/MC_Fft.tla harness/checks/c04.py", "serves_properties": ["C04"],
              "kind_free_text": "TLC exhaustive tables + spec->code replay"},
-            {"name": "linear", "path": "spec/Symbols.tla spec/MC_Linear.tla harness/linear.py harness/checks/c01.py", "serves_properties": ["C01"],
+            {"name": "linear", "path": "spec/Symbols.tla spec/MC_Linear.tla harness/linear.py harness/checks/c01.py", "serves_properties": ["C01", "C05", "C11"],
              "kind_free_text": "TLC symbol tables + behaviours, spec->code replay"},
             {"name": "etdrk", "path": "spec/Tableau.tla spec/MC_ETDRK.tla spec/Trace_ETDRK.tla harness/etdrk.py harness/checks/c02.py", "serves_properties": ["C02"],
              "kind_free_text": "TLC symbolic stage machine + coefficient cover + trace validation"},
